@@ -1,25 +1,68 @@
 """C02 — Shurooq and Maghrib are sunrise and sunset of the Sun's upper limb (engine M; partial)."""
 from ..common import *
-from ..obl import base, kernels, transit, wiring
+from ..obl import base, kernels, jd, transit, wiring
 from . import kernelprop as kp
 
 LEVEL = "model_checking"
 EXPLANATION = ("Solver-decided over the symbolically executed MIR: get_shur_magh_m_0_adj satisfies the rise/set identity at h0 = -0.833 deg "
                "(+-0.05, sine scale) with adj in [0,0.5] for |lat| <= 60; get_shur_dhuhr_magh computes Shurooq at m0 - adj and Maghrib at "
-               "m0 + adj (before/after the transit fraction) and corrects each once with the caller's weather; weather reaches only this "
-               "kernel (get_hours / prayer_times_dt wiring) and an absent weather is Weather::default().")
+               "m0 + adj (before/after the transit fraction) and corrects each once with the caller's weather; get_shur_magh's correction solves "
+               "the linearised altitude equation within 0.05 deg with a refraction term below 0.03 deg for every weather (6-step proof script "
+               "through get_refraction); weather reaches only this kernel (get_hours / prayer_times_dt wiring) and an absent weather is "
+               "Weather::default().")
 WANT = {"riseset"}
+
+
+def weather_native(rep):
+    """Native judge (confirmation only): weather over its full range moves Shurooq/Maghrib by at most 60 s and nothing else."""
+    from .. import kreplay
+    import os
+    cases = kp.random_cases(60, 60, int(os.environ.get("VERIF_SEED", "0") or 0) + 3)
+    variants = [None, {"p": 100.0, "t": 57.0}, {"p": 1050.0, "t": -90.0}]
+    runs = []
+    for wv in variants:
+        cs = []
+        for c in cases:
+            c2 = dict(c)
+            c2["weather"] = wv
+            cs.append(c2)
+        runs.append(kreplay.run(cs))
+    for k, c in enumerate(cases):
+        base_ = runs[0][k].get("hours")
+        for vi in (1, 2):
+            h = runs[vi][k].get("hours")
+            if not base_ or not h:
+                continue
+            for i, nm in enumerate(("Fajr", "Shurooq", "Dhuhr", "Asr", "Maghrib", "Isha")):
+                a, b = base_[i], h[i]
+                if (a is None) != (b is None):
+                    rep.violation("weather-validity", "weather changes the validity of %s" % nm, dict(c, weather=variants[vi]), {"default": base_, "weather": h})
+                    return
+                if a is None:
+                    continue
+                lim = 60.0 / 3600 if nm in ("Shurooq", "Maghrib") else 0.0
+                if abs(a - b) > lim:
+                    rep.violation("weather-shift", "weather %s moves %s by %.1f s at lat %.2f" % (variants[vi], nm, (b - a) * 3600, c["lat"]),
+                                  dict(c, weather=variants[vi]), {"default": base_, "weather": h})
+                    return
 
 
 def run(rep):
     rep.bounds = {"latitude": "[-60,60]", "declination": "[-23.7,23.7]", "h0": "the crate's constant must lie within 0.05 deg of -0.833"}
     rep.assumptions += kp.COMMON_ASSUMPTIONS + [
-        "the iterated correction in get_shur_magh (interpolated declination, refraction term) and the size of the weather-induced shift "
-        "('seconds only') are executed but their numeric bounds are outside the solver-decided claim (judged natively on replay only)"]
-    obls = [(kernels.shur_magh_adj, 60), (transit.sdm_wiring, None), (wiring.get_hours_wiring, None), (wiring.prayer_times_dt_wiring, False),
-            (wiring.prayer_times_dt_wiring, True)]
+        "get_shur_magh: preconditions of the correction obligation - the first approximation is within 1 deg of h0 and not grazing "
+        "(|cos dec cos lat sin H| >= 0.05); that the first approximation meets them for |lat| <= 60 is not solver-decided",
+        "|sin lat sin dec + cos lat cos dec cos H| <= 1 (cosine of the zenith distance) is used as a premise"]
+    obls = [(kernels.shur_magh_adj, 60), (kernels.shur_magh_correction, 60), (transit.sdm_wiring, None), (wiring.get_hours_wiring, None), (wiring.prayer_times_dt_wiring, False),
+            (wiring.prayer_times_dt_wiring, True), (jd.jd_formula, (1600, 2399))]
     res = base.run_obligations(rep, obls)
-    kp.confirm(rep, res, WANT, 60)
+    if any(x["cands"] for x in res if x["name"].startswith("JulianDay")):
+        from . import c01
+        c01.confirm_jd(rep, res)
+    kres = [x for x in res if not x["name"].startswith("JulianDay")]
+    if any(x["cands"] for x in kres):
+        weather_native(rep)
+    kp.confirm(rep, kres, WANT, 60)
     rep.samples = [{"obligation": o["name"], "status": o["status"], "paths": o.get("paths")} for o in rep.obligations]
 
 
